@@ -66,7 +66,9 @@ def form(h: str) -> str:
 def ip_entry(ip: str):
     if ":" in ip:
         addr, _, scope = ip.partition("%")
-        return (socket.AF_INET6, addr, PORT, int(scope) if scope else 0)
+        import ipaddress
+
+        return (socket.AF_INET6, str(ipaddress.ip_address(addr)), PORT, int(scope) if scope else 0)  # (canonical spelling)
     return (socket.AF_INET, ip, PORT, 0)
 
 
@@ -278,6 +280,11 @@ def run_case(case: dict) -> CaseResult:
             await cli.disconnect(force=True)
             await asyncio.sleep(2 / 64)
             classes.add("client_second_connect_multi_address")
+            for h_, script_ in (op.get("dns_then") or {}).items():
+                # the OS resolver answers differently from now on: every connect resolves afresh
+                env.dns[h_] = tuple(script_) if script_[0] != "ok" else ("ok", list(script_[1]), D)
+                (case.setdefault("dns", {}))[h_] = script_
+                classes.add("resolver_answer_changed_between_connects")
         n_tcp0 = len(env.tcp_calls)
         exp_addrs, _ml, _ol, _oe = reference(given or [op.get("address", "kitchen.local")], world.mdns, case.get("dns") or {})
         t = env.spawn(f"client{i}", cli.connect(login=True))
@@ -429,6 +436,15 @@ def enumerated(tier):
         for mo in MDNS_OUT[:3]:
             for do in DNS_OUT:
                 yield {"manager": "empty", "mdns": {h.partition(".")[0]: mo}, "dns": {h: do}, "ops": [{"op": "resolve", "hosts": [h]}, {"op": "resolve", "hosts": ["10.0.0.5", h, "fd00::7"]}]}
+    # a second connect on the same client after the OS resolver's answer changed (new lease) / stopped resolving
+    for addrs in (["dev.example.com", "esp.lan"], ["esp.lan", "10.0.0.5"]):
+        for then_ in ({"esp.lan": ["ok", ["10.2.9.9"]]}, {"esp.lan": ["error"], "dev.example.com": ["ok", ["10.2.9.8"]]}):
+            yield {"manager": "empty", "mdns": {}, "dns": {"dev.example.com": ["ok", ["10.2.0.1"]], "esp.lan": ["ok", ["10.2.0.3"]]},
+                   "ops": [{"op": "client", "tcp": "ok", "addresses": addrs, "land": 0, "again": True, "dns_then": then_}]}
+    # IPv6 literals in a legal non-canonical spelling among several addresses, the socket landing on them
+    for addrs in (["10.0.0.5", "FD00::7"], ["10.0.0.5", "fd00:0:0::7", "FE80::1%3"], ["FD00::7", "10.0.0.5"]):
+        for land in (0, 1, 2):
+            yield {"manager": "empty", "mdns": {}, "dns": {}, "ops": [{"op": "client", "tcp": "ok", "addresses": addrs, "land": land, "again": True}]}
     # several configured addresses, the socket landing on the k-th candidate, then a second connect on the same client
     for addrs in (["10.0.0.5", "10.0.0.6"], ["10.0.0.5", "fd00::7", "10.0.0.6"], ["fe80::1%3", "10.0.0.5"], ["10.0.0.5", "kitchen.local"]):
         for land in (0, 1, 2):
